@@ -87,7 +87,7 @@ def generate(rng, focus, tier="quick"):
                       for _ in range(rng.randrange(1, 4))))
     cfg = {"use_symbols": rng.random() < 0.5, "cuts": cuts, "perm_seed": rng.randrange(1 << 30),
            "handler_universe": rng.choice([None, None, "empty", "subset", "late"]),
-           "dir_suffix": rng.choice(mk.DIR_SUFFIXES)}
+           "dir_suffix": rng.choice(mk.DIR_SUFFIXES), "dict_first": rng.random() < 0.4}
     plan = {"world": NAME, "cfg": cfg, "market": market, "ops": ops}
     if rng.random() < 0.3:
         # a second data source behind the same handler: the handler must return the first non-NaN answer
@@ -113,6 +113,25 @@ def load_source(market, cfg, dirpath, market2=None):
         mk.write_market({"assets": {s: mkt["assets"][s] for s in present}}, d)
         syms = present if cfg.get("use_symbols") else None
         srcs.append(CSVDailyBarDataSource(d, Equity, adjust_prices=mkt["adjust"], csv_symbols=syms))
+    if cfg.get("dict_first") and market2 is not None:
+        # a user-written first source backed by a mapping: same answers as the CSV source of the first market where
+        # it has one, KeyError where it has none (unknown symbol, or a time before its first bar)
+        ref_ = RefPrices(market)
+
+        class MappingSource(object):
+            def _get(self, dt, asset):
+                from ..core import epoch as _epoch
+                p_ = ref_.price(asset, _epoch(dt))
+                if p_ != p_:
+                    raise KeyError((str(dt), asset))
+                return p_
+
+            def get_bid(self, dt, asset):
+                return self._get(dt, asset)
+
+            def get_ask(self, dt, asset):
+                return self._get(dt, asset)
+        srcs = [srcs[0], MappingSource()] + srcs[1:]
     # the handler's universe argument: prices are a matter of the data, whatever universe object is handed over
     hu = cfg.get("handler_universe")
     uni = None
@@ -127,6 +146,8 @@ def load_source(market, cfg, dirpath, market2=None):
             uni = StaticUniverse(ids[:max(1, len(ids) // 2)][:1])
         else:
             uni = DynamicUniverse(dict((a, pd.Timestamp("2099-01-01", tz="UTC")) for a in ids))
+    if cfg.get("dict_first") and market2 is not None:
+        return srcs[0], BacktestDataHandler(uni, data_sources=srcs[1:])
     return srcs[0], BacktestDataHandler(uni, data_sources=srcs)
 
 
@@ -206,6 +227,9 @@ def execute(plan, focus, trace=False):
         try:
             src, handler = load_source(market, cfg, d0, market2)
         except Exception as e:
+            from qsim.core import raised_in_repo as _rir
+            if not _rir(e):
+                raise          # a bug of the harness: exit 2, never a verdict
             try:
                 ctx.violate("C06", "loading_valid_csv_raised", {"exc": repr(e)[:300]})
             except StopRun:
@@ -231,6 +255,9 @@ def execute(plan, focus, trace=False):
                 try:
                     got, note = ask(src, handler, api, asset, t)
                 except Exception as e:
+                    from qsim.core import raised_in_repo as _rir
+                    if not _rir(e):
+                        raise          # a bug of the harness: exit 2, never a verdict
                     ctx.violate("C06", "query_raised", {"api": api, "asset": asset, "t": iso(t),
                                                         "exc": repr(e)[:300]})
                     continue
@@ -273,6 +300,9 @@ def execute(plan, focus, trace=False):
                     try:
                         src2, h2 = load_source(m2, cfg, d2, m22)
                     except Exception as e:
+                        from qsim.core import raised_in_repo as _rir
+                        if not _rir(e):
+                            raise          # a bug of the harness: exit 2, never a verdict
                         ctx.violate("C06", "loading_truncated_csv_raised", {"exc": repr(e)[:300], "cut": cut})
                         break
                     ctx.fault("truncate_future")
@@ -283,6 +313,9 @@ def execute(plan, focus, trace=False):
                         try:
                             got2, note2 = ask(src2, h2, api, asset, t)
                         except Exception as e:
+                            from qsim.core import raised_in_repo as _rir
+                            if not _rir(e):
+                                raise          # a bug of the harness: exit 2, never a verdict
                             ctx.violate("C06", "query_raised_on_truncated_data",
                                         {"api": api, "asset": asset, "t": iso(t), "exc": repr(e)[:300]})
                             break
